@@ -6,19 +6,22 @@
      - every byte of every data/expr item, zeros for bss (the allocator fills fresh blocks with 0xA5),
      - ref items hold Addr(target) + disp where Addr(item j) is taken from the model's layout
        (address of the head of j's section + offset of j), Addr(import/function) from item->addr,
-     - lref items hold A(l1) + disp, or A(l1) - A(l2) + disp, where A(l) is what a one-label reference to l
-       added by the harness holds once the function of the labels has been prepared (interpreted once /
-       generated).  These references la1..la3 are ANONYMOUS members of a section headed by a byte item
-       (`lah: u8 0`, after the sequence), so they do not influence whether the module's lrefs get linked.
-       Under the engines where a label has one address (interp, gen, lazy gen; lazy bb gen has one per
-       block version) A(l) must also be what `laddr` gives inside the function (it stores laddr L1..L3
-       into a buffer when run).
+     - lref items hold A(l1) + disp, or A(l1) - A(l2) + disp, once the function of the labels has been
+       prepared (interpreted once / generated).  Under interp, gen and lazy gen a label has one address:
+       A(l) is what `laddr` gives inside the function (it stores laddr L1..L3 into a buffer when run) and
+       the harness adds NO lref item of its own, so whether the module's lrefs get linked depends on the
+       sequence alone.  Under lazy bb gen a label has one address per block version, so there A(l) is
+       what a one-label reference holds: la1..la3, anonymous members of a section headed by `lah: u8 0`
+       after the sequence (only for that engine).
+     - every named data-like item is exported (`export d<i>` after the sequence); a second module m2, loaded
+       after the module under test, imports each and holds `ref d<i>, 3`: it must be Addr(item i) + 3.
+       The module loaded before (m0) exports `modd` as a section of three items for the same reason.
    Form 1 (text): the module under test arrives as MIR text and is read by MIR_scan_string; the sequence
-   items are the <nitems> items before the 4 epilogue items (lah, la1..la3) of the scanned module.
+   items are the <nitems> items before the epilogue items (the exports; lah, la1..la3 under lazy bb gen).
    Runs under ASan: writes outside the requested block are reported by the sanitizer.
 
    Input (stdin): C <case> <engine> <nitems> <form> (engine 0 interp, 1 gen, 2 lazy gen, 3 lazy bb gen), then per item
-     I <kind> <named> <type> <n> <disp> <l1> <l2> <sec> <off> <len> <secsize|-1> <tkind> <tidx> <via> <edisp> <nbytes> {byte}* <ninit> {byte}*
+     I <kind> <named> <type> <n> <disp> <l1> <l2> <sec> <off> <len> <secsize|-1> <tkind> <tidx> <via> <edisp> <xp> <nbytes> {byte}* <ninit> {byte}*
        (bytes: expected contents of data/expr; init: the bytes the item is declared with / the expression returns)
    kind 0 data 1 bss 2 ref 3 lref 4 expr 5 proto 6 string (init = str.s, ninit = str.len); type index in MIR_T_I8..MIR_T_P order;
    tkind 0 item 1 ext 2 mod 3 func (ref only); via (ref to a named item): 0 the definition / `forward x`,
@@ -89,10 +92,10 @@ static void MIR_NO_RETURN trap (MIR_error_type_t t, const char *fmt, ...) {
 
 /* ---------------- one case ---------------------------------------------------------------------------- */
 #define MAXI 8
-#define NEPI 4 /* epilogue items: lah, la1, la2, la3 */
+#define NLA 4 /* lah, la1, la2, la3 (engine 3 only) */
 #define MAXB 300
 typedef struct {
-  int kind, named, type, n, disp, l1, l2, sec, off, len, secsize, tkind, tidx, via, edisp, nbytes;
+  int kind, named, type, n, disp, l1, l2, sec, off, len, secsize, tkind, tidx, via, edisp, xp, nbytes;
   unsigned char bytes[MAXB], init[MAXB];
   int ninit;
   MIR_item_t item;
@@ -107,7 +110,7 @@ static const char *tname[12] = {"i8", "u8", "i16", "u16", "i32", "u32", "i64", "
 static const char *kname[7] = {"data", "bss", "ref", "lref", "expr", "proto", "string"};
 static int form;
 static char *text; /* form 1: the module as MIR text */
-static int64_t ext_buf[4], modd_init[2] = {1, 2};
+static int64_t ext_buf[4];
 
 #define FAIL(i, key, ...) do { printf ("FAIL %ld %d %s ", caseno, i, key); printf (__VA_ARGS__); printf ("\n"); nfail++; bad = 1; } while (0)
 
@@ -153,7 +156,9 @@ static MIR_item_t expr_func (MIR_context_t ctx, int type, const unsigned char *b
 
 static void run_case (void) {
   MIR_context_t ctx = MIR_init2 (&r_alloc, NULL);
-  MIR_module_t m0, m;
+  MIR_module_t m0, m, m2;
+  MIR_item_t xr[MAXI + 2];
+  int nexp, nepi;
   MIR_item_t modd, imp_ext, imp_mod, lf, fw[MAXI + 2], ex[MAXI + 2], via_item[MAXI + 2], efunc[12], la[4] = {NULL, NULL, NULL, NULL};
   MIR_label_t L[4];
   MIR_type_t i64 = MIR_T_I64;
@@ -172,14 +177,26 @@ static void run_case (void) {
   }
   if (engine >= 1) MIR_gen_init (ctx);
   MIR_load_external (ctx, "ext1", ext_buf);
-  /* a module loaded before, exporting the data item `modd` */
+  /* a module loaded before, exporting the data section `modd` */
   m0 = MIR_new_module (ctx, "m0");
-  modd = MIR_new_data (ctx, "modd", MIR_T_I64, 2, modd_init);
+  { int64_t v1 = 1, v2 = 2; int8_t v3 = 3; /* a section: the export is its start */
+    modd = MIR_new_data (ctx, "modd", MIR_T_I64, 1, &v1);
+    MIR_new_data (ctx, NULL, MIR_T_I64, 1, &v2);
+    MIR_new_data (ctx, NULL, MIR_T_I8, 1, &v3);
+  }
   MIR_new_export (ctx, "modd");
   MIR_finish_module (ctx);
   MIR_load_module (ctx, m0);
   phase = 1;
   /* the module under test: prologue (imports, forwards, functions), then the sequence */
+  nexp = 0;
+  for (int i = 1; i <= nitems; i++)
+    if (it[i].xp) { /* an export declared at the start of the module (ref via export) is merged with the one at the end */
+      int early = 0;
+      for (int j = 1; j <= nitems; j++) early |= it[j].kind == 2 && it[j].tkind == 0 && it[j].tidx == i && it[j].via != 0;
+      nexp += !early;
+    }
+  nepi = nexp + (engine == 3 ? NLA : 0);
   if (form == 1) {
     int k = 0, total = 0;
     MIR_item_t item;
@@ -192,10 +209,10 @@ static void run_case (void) {
     }
     for (item = DLIST_HEAD (MIR_item_t, m->items); item != NULL; item = DLIST_NEXT (MIR_item_t, item)) {
       k++;
-      if (k > total - nitems - NEPI && k <= total - NEPI) it[k - (total - nitems - NEPI)].item = item;
-      else if (k > total - NEPI + 1) la[k - (total - NEPI + 1)] = item;
+      if (k > total - nitems - nepi && k <= total - nepi) it[k - (total - nitems - nepi)].item = item;
+      else if (engine == 3 && k > total - NLA + 1) la[k - (total - NLA + 1)] = item;
     }
-    if (lf == NULL || total < nitems + NEPI) { trap_armed = 0; FAIL (0, "machinery", "scanned module has %d items, no lf", total); return; }
+    if (lf == NULL || total < nitems + nepi) { trap_armed = 0; FAIL (0, "machinery", "scanned module has %d items, no lf", total); return; }
   } else {
   m = MIR_new_module (ctx, "m");
   imp_ext = MIR_new_import (ctx, "ext1");
@@ -256,14 +273,32 @@ static void run_case (void) {
     default: x->item = MIR_new_proto (ctx, nmp, 0, NULL, 0); break;
     }
   }
-  { unsigned char z = 0; MIR_new_data (ctx, "lah", MIR_T_U8, 1, &z); }
-  for (int i = 1; i <= 3; i++) la[i] = MIR_new_lref_data (ctx, NULL, L[i], NULL, 0);
+  for (int i = 1; i <= nitems; i++)
+    if (it[i].xp) { sprintf (name, "d%d", i); MIR_new_export (ctx, name); }
+  if (engine == 3) {
+    unsigned char z = 0;
+    MIR_new_data (ctx, "lah", MIR_T_U8, 1, &z);
+    for (int i = 1; i <= 3; i++) la[i] = MIR_new_lref_data (ctx, NULL, L[i], NULL, 0);
+  }
   MIR_finish_module (ctx);
   }
+  /* the module loaded afterwards: sees every exported item through an import */
+  m2 = MIR_new_module (ctx, "m2");
+  memset (xr, 0, sizeof (xr));
+  for (int i = 1; i <= nitems; i++)
+    if (it[i].xp) {
+      MIR_item_t imp;
+      sprintf (name, "d%d", i);
+      imp = MIR_new_import (ctx, name);
+      sprintf (name, "x%d", i);
+      xr[i] = MIR_new_ref_data (ctx, name, imp, 3);
+    }
+  MIR_finish_module (ctx);
   phase = 3;
   recording = 1;
   MIR_load_module (ctx, m);
   recording = 0;
+  MIR_load_module (ctx, m2);
   phase = 4;
   MIR_link (ctx, engine == 0 ? MIR_set_interp_interface : engine == 1 ? MIR_set_gen_interface : engine == 2 ? MIR_set_lazy_gen_interface : MIR_set_lazy_bb_gen_interface, NULL);
   phase = 5;
@@ -329,13 +364,16 @@ static void run_case (void) {
     case 3: {
       int64_t got, A1, A2 = 0, want;
       memcpy (&got, p, 8);
-      memcpy (&A1, la[x->l1]->addr, 8);
-      if (x->l2) memcpy (&A2, la[x->l2]->addr, 8);
+      if (engine == 3) {
+        memcpy (&A1, la[x->l1]->addr, 8);
+        if (x->l2) memcpy (&A2, la[x->l2]->addr, 8);
+      } else {
+        A1 = AL[x->l1 - 1];
+        if (x->l2) A2 = AL[x->l2 - 1];
+      }
       want = A1 - A2 + x->edisp;
       if (got == (int64_t) 0xA5A5A5A5A5A5A5A5ull) /* still the allocator's fill pattern: nothing ever wrote the item */
         FAIL (i, "lref_not_filled", "lref item %d (L%d, L%d, disp %d) was never filled after its function had been prepared [%s]", i, x->l1, x->l2, x->disp, seq);
-      else if (engine != 3 && A1 != AL[x->l1 - 1])
-        FAIL (i, "lref_vs_laddr", "one-label lref of L%d holds %ld but laddr L%d gives %ld [%s]", x->l1, (long) A1, x->l1, (long) AL[x->l1 - 1], seq);
       else if (got != want)
         FAIL (i, x->l2 ? "lref_diff" : "lref_addr", "lref item %d (L%d, L%d, disp %d) holds %ld, but A(L%d)%s%+d = %ld with A(L%d) = %ld [%s]", i, x->l1,
               x->l2, x->disp, (long) got, x->l1, x->l2 ? " - A(l2)" : "", x->disp, (long) want, x->l1, (long) A1, seq);
@@ -343,6 +381,13 @@ static void run_case (void) {
     }
     }
   }
+  for (int i = 1; i <= nitems && !bad; i++)
+    if (it[i].xp) { /* what another module sees of the exported item */
+      unsigned char *t = (unsigned char *) it[it[i].sec].item->addr + it[i].off, *got;
+      memcpy (&got, xr[i]->addr, 8);
+      if (got != t + 3)
+        FAIL (i, "import_of_export", "`ref d%d, 3` in a module loaded afterwards holds item%+ld, expected item+3 [%s]", i, (long) (got - t), seq);
+    }
   trap_armed = 1;
   if (engine >= 1) MIR_gen_finish (ctx);
   MIR_finish (ctx);
@@ -358,8 +403,8 @@ int main (void) {
       for (int i = 1; i <= nitems; i++) {
         it_t *x = &it[i];
         if (scanf ("%7s", tag) != 1 || tag[0] != 'I') return 3;
-        if (scanf ("%d %d %d %d %d %d %d %d %d %d %d %d %d %d %d %d", &x->kind, &x->named, &x->type, &x->n, &x->disp, &x->l1, &x->l2, &x->sec,
-                   &x->off, &x->len, &x->secsize, &x->tkind, &x->tidx, &x->via, &x->edisp, &x->nbytes) != 16 || x->nbytes > MAXB) return 3;
+        if (scanf ("%d %d %d %d %d %d %d %d %d %d %d %d %d %d %d %d %d", &x->kind, &x->named, &x->type, &x->n, &x->disp, &x->l1, &x->l2, &x->sec,
+                   &x->off, &x->len, &x->secsize, &x->tkind, &x->tidx, &x->via, &x->edisp, &x->xp, &x->nbytes) != 17 || x->nbytes > MAXB) return 3;
         for (int j = 0; j < x->nbytes; j++) { int b; if (scanf ("%d", &b) != 1) return 3; x->bytes[j] = (unsigned char) b; }
         if (scanf ("%d", &x->ninit) != 1 || x->ninit > MAXB) return 3;
         for (int j = 0; j < x->ninit; j++) { int b; if (scanf ("%d", &b) != 1) return 3; x->init[j] = (unsigned char) b; }
